@@ -18,3 +18,48 @@ impl Uf {
         r
     }
 }
+
+// ---- euclid::Transform2D::transform_point as an uninterpreted function -------------------------------------------------
+// `transform_point_uf` replaces the dependency's float arithmetic (kani::stub) in structural harnesses: the result is an
+// arbitrary but fixed function of the six matrix entries and the point, EXCEPT under the exact identity matrix, where it
+// returns the point itself.  That law is proved on the real function in K.transform_point_identity (finite coordinates,
+// equality as floats, i.e. up to the sign of zero).
+pub const UF8_CAP: usize = 12;
+pub struct Uf8 { pub n: usize, pub tab: [([u32; 8], [u32; 2]); UF8_CAP] }
+impl Uf8 {
+    pub const fn new() -> Uf8 { Uf8 { n: 0, tab: [([0; 8], [0; 2]); UF8_CAP] } }
+    pub fn call(&mut self, k: [u32; 8]) -> [u32; 2] {
+        let mut i = 0;
+        while i < UF8_CAP {
+            let t = &self.tab[i].0;
+            if i < self.n && t[0] == k[0] && t[1] == k[1] && t[2] == k[2] && t[3] == k[3] && t[4] == k[4] && t[5] == k[5] && t[6] == k[6] && t[7] == k[7] { return self.tab[i].1; }
+            i += 1;
+        }
+        assert!(self.n < UF8_CAP, "uninterpreted-function table capacity");
+        let r: [u32; 2] = [kani::any(), kani::any()];
+        self.tab[self.n] = (k, r);
+        self.n += 1;
+        r
+    }
+}
+pub static mut UF_TP: Uf8 = Uf8::new();
+pub fn uf_tp_reset() { unsafe { UF_TP.n = 0; } }
+fn bits_of<T: Copy>(v: T) -> u32 {
+    assert!(core::mem::size_of::<T>() == 4);
+    unsafe { core::mem::transmute_copy::<T, u32>(&v) }
+}
+fn from_bits_to<T: Copy>(b: u32) -> T {
+    assert!(core::mem::size_of::<T>() == 4);
+    unsafe { core::mem::transmute_copy::<u32, T>(&b) }
+}
+pub fn transform_point_uf<T, Src, Dst>(t: &euclid::Transform2D<T, Src, Dst>, point: euclid::Point2D<T, Src>) -> euclid::Point2D<T, Dst>
+where T: Copy + core::ops::Add<Output = T> + core::ops::Mul<Output = T>,
+{
+    let k = [bits_of(t.m11), bits_of(t.m12), bits_of(t.m21), bits_of(t.m22), bits_of(t.m31), bits_of(t.m32), bits_of(point.x), bits_of(point.y)];
+    let one = 1.0f32.to_bits();
+    if k[0] == one && k[1] == 0 && k[2] == 0 && k[3] == one && k[4] == 0 && k[5] == 0 {
+        return euclid::Point2D::new(point.x, point.y);
+    }
+    let r = unsafe { UF_TP.call(k) };
+    euclid::Point2D::new(from_bits_to::<T>(r[0]), from_bits_to::<T>(r[1]))
+}
